@@ -486,8 +486,10 @@ class FixedArray
 
         if (isMaskedReference())
         {
+            // the mask may have the masked or the unmasked length
+            const bool maskedSpace = (size_t) mask.len() == len;
             for (size_t i = 0; i < len; ++i)
-                _ptr[raw_ptr_index(i)*_stride] = data;
+                if (mask[maskedSpace ? i : raw_ptr_index(i)]) _ptr[raw_ptr_index(i)*_stride] = data;
         }
         else
         {
